@@ -191,6 +191,8 @@ class Knobs:
         self.watch = None           # only handles whose path ends with this name count / fail
         self.abort = False          # make every read raise (stops a spinning request loop)
         self.wake = None            # Event set when spinning is detected (a Worker waits on it)
+        self.raise_ops = {}         # served file name -> set of SFTPHandle methods that raise OSError(EIO) on it
+                                    # ("close", "read", "write", "stat", "chattr"): e.g. a deferred write error at close
         self.reset_counts()
 
     def reset_counts(self):
@@ -213,13 +215,25 @@ def make_server_classes():
         knobs = None
         watched = False
 
+        def _boom(self, op):
+            import errno
+            if op in self.knobs.raise_ops.get(os.path.basename(self.filename), ()):
+                raise OSError(errno.EIO, "injected %s() failure" % op)
+
+        def close(self):
+            SFTPHandle.close(self)        # release the descriptor in any case
+            if not self.knobs.abort:      # (not while the harness tears the session down)
+                self._boom("close")
+
         def stat(self):
+            self._boom("stat")
             try:
                 return SFTPAttributes.from_stat(os.fstat(self.readfile.fileno()))
             except OSError as e:
                 return SFTPServer.convert_errno(e.errno)
 
         def chattr(self, attr):
+            self._boom("chattr")
             try:
                 SFTPServer.set_file_attr(self.filename, attr)
                 return SFTP_OK
@@ -227,6 +241,7 @@ def make_server_classes():
                 return SFTPServer.convert_errno(e.errno)
 
         def read(self, offset, length):
+            self._boom("read")
             kn = self.knobs
             if kn.abort:
                 raise RuntimeError("request aborted by the harness watchdog")
@@ -257,6 +272,7 @@ def make_server_classes():
             return data
 
         def write(self, offset, data):
+            self._boom("write")
             kn = self.knobs
             if not self.watched:
                 return SFTPHandle.write(self, offset, data)
@@ -667,16 +683,18 @@ class _Cur:
 
 
 def parse_response(t, body):
-    """body = packet after the type byte -> (type name, id, well-formed?, handle bytes or None)"""
+    """body = packet after the type byte -> (type name, id, well-formed?, handle bytes or None, status code or -1)"""
     name = TYPE_NAME.get(t, "OTHER")
     if len(body) < 4:
-        return name, None, False, None
+        return name, None, False, None, -1
     c = _Cur(body)
     num = c.u32()
     h = None
+    code = -1
     try:
         if t == 101:
-            c.u32(), c.s(), c.s(), c.end()
+            code = c.u32()
+            c.s(), c.s(), c.end()
         elif t == 102:
             h = c.s()
             c.end()
@@ -693,7 +711,7 @@ def parse_response(t, body):
         wf = True
     except ValueError:
         wf = False
-    return name, num, wf, h
+    return name, num, wf, h, code
 
 
 class StreamRunner:
@@ -739,7 +757,7 @@ class StreamRunner:
                 elif time.time() >= end:
                     q["stuck"], q["why"] = True, "no response within %.0f s" % self.deadline
                 continue
-            name, num, wf, h = parse_response(*p)
+            name, num, wf, h, code = parse_response(*p)
             tgt = self.byid.get(num)
             if tgt is None:
                 self.foreign += 1
@@ -748,7 +766,7 @@ class StreamRunner:
             if h is not None and tgt["kind"] in ("open", "opendir"):
                 self.issued.append(h)
                 newh = len(self.issued)
-            tgt["resp"].append({"type": name, "wf": wf or name == "OTHER", "newh": newh, "t": p[0]})
+            tgt["resp"].append({"type": name, "wf": wf or name == "OTHER", "newh": newh, "t": p[0], "code": code})
         q["foreign"] = self.foreign
         return not q["stuck"]
 
@@ -835,6 +853,24 @@ def quiet_thread_errors():
         prev(args)
     threading.excepthook = hook
     threading._verif_hook = True
+
+
+class ShortReader:
+    """read-only file-like object over `data`; read(n) hands out at most `cap` bytes ("random": 1..n) per call"""
+
+    def __init__(self, data, cap, rnd):
+        self.data, self.cap, self.rnd, self.pos = data, cap, rnd, 0
+
+    def read(self, n=-1):
+        left = len(self.data) - self.pos
+        if n is None or n < 0:
+            n = left
+        n = min(n, left)
+        if n > 0:
+            n = self.rnd.randint(1, n) if self.cap == "random" else min(n, self.cap)
+        out = self.data[self.pos:self.pos + n]
+        self.pos += n
+        return out
 
 
 class ProgramRunner:
@@ -946,7 +982,12 @@ class ProgramRunner:
             dst = os.path.join(self.root, "w")
             if os.path.exists(dst):
                 os.remove(dst)
-            if op.get("fo"):
+            if op.get("src"):
+                # a file-like source whose read(n) returns fewer than n bytes before the end of the data
+                # (raw pipe, unbuffered socket file, HTTP body): at most `cap` bytes, or seeded random lengths
+                stream = ShortReader(src, op["src"], self.rnd)
+                fn = lambda: self.client.putfo(stream, "w", len(src), cb, op["confirm"])            # noqa: E731
+            elif op.get("fo"):
                 fn = lambda: self.client.putfo(io.BytesIO(src), "w", len(src), cb, op["confirm"])    # noqa: E731
             else:
                 fn = lambda: self.client.put(local, "w", cb, op["confirm"])                         # noqa: E731
